@@ -52,3 +52,22 @@ a2_t verif_reduction_nd_reshape_h(sv_t inp_shape)
 { return ix::reduction_nd_reshape(hk_t{}, meta::as_type<4ul>{}, inp_shape, inp_shape, -1); }
 a2_t verif_reduction_nd_reshape_v(sv_t inp_shape, int axis)
 { return ix::reduction_nd_reshape(vk_t{}, meta::as_type<4ul>{}, inp_shape, inp_shape, axis); }
+
+// ---- outer enumerator (evaluator/ufunc.hpp eval_outer): 1-d (x) 1-d -> 2-d; lhs is always broadcast, rhs/out packed or padded
+using a1_t = nmtools_array<nm_size_t,1>;
+a2_t verif_outer_shape_4(a2_t out_shape, a1_t lhs_shape, a1_t rhs_shape)
+{ return ix::outer_simd_shape(meta::as_type<4ul>{}, out_shape, lhs_shape, rhs_shape); }
+tix3_t verif_outer_at_4(a2_t out_shape, a1_t lhs_shape, a1_t rhs_shape, nm_size_t i)
+{ auto e = ix::outer_simd_enumerator(meta::as_type<4ul>{}, out_shape, lhs_shape, rhs_shape); return e[i]; }
+a2_t verif_outer_shape_8(a2_t out_shape, a1_t lhs_shape, a1_t rhs_shape)
+{ return ix::outer_simd_shape(meta::as_type<8ul>{}, out_shape, lhs_shape, rhs_shape); }
+tix3_t verif_outer_at_8(a2_t out_shape, a1_t lhs_shape, a1_t rhs_shape, nm_size_t i)
+{ auto e = ix::outer_simd_enumerator(meta::as_type<8ul>{}, out_shape, lhs_shape, rhs_shape); return e[i]; }
+
+// ---- matmul inner enumerator (eval/simd/index/matmul.hpp): dot product of lhs row `out_offset / out_cols` with the (transposed) rhs
+//      row `out_offset % out_cols`, K = lhs_shape[-1] elements in ceil(K/N) packed / padded steps  (thorough tier)
+#include "nmtools/array/eval/simd/index/matmul.hpp"
+tix3_t verif_matmul_inner_at_4(a2_t out_shape, a2_t lhs_shape, a2_t rhs_shape, nm_size_t out_offset, nm_size_t step)
+{ auto e = ix::matmul_simd_inner_enumerator_t<nm_size_t,4ul,nm_size_t,a2_t,a2_t,a2_t>(meta::as_type<4ul>{}, out_offset, out_shape, lhs_shape, rhs_shape); return e[step]; }
+nm_size_t verif_matmul_inner_size_4(a2_t out_shape, a2_t lhs_shape, a2_t rhs_shape, nm_size_t out_offset)
+{ auto e = ix::matmul_simd_inner_enumerator_t<nm_size_t,4ul,nm_size_t,a2_t,a2_t,a2_t>(meta::as_type<4ul>{}, out_offset, out_shape, lhs_shape, rhs_shape); return e.size(); }
